@@ -10,12 +10,12 @@ piecewise-constant traces; all judging is done after the simulation on these tra
 
 Workload (reactive and seeded; the driver only looks at the DUT outputs to find out *where* it is, e.g. "the device chirp
 has ended", never to decide what is correct).  Two families of sessions:
-  playground  FS-only / LS-only device (27 %): SE0 pulses around 2.5 us and 5 us (147..153, 296..304, halves, split by 1-3
+  playground  FS-only / LS-only device (30 %, half of them LS): SE0 pulses around 2.5 us and 5 us (147..153, 296..304, halves, split by 1-3
               cycle glitches), restriction released / re-asserted 0-6 cycles around the reset decision, VBUS loss, soft
               disconnect, 3 ms idle in the variants plain / split by a glitch / preceded by 10-80 k cycles of a non-idle
               state (K, SE1, the J of the other speed) / 1..10 cycles short + glitch / 3 ms of a non-idle state only, SE0
               pulses around 2.5 us while suspended (glitches that are not a resume K), resume, reset out of suspend.
-  hs          HS-capable device (73 %), one of the plans
+  hs          HS-capable device (70 %), one of the plans
               resume_then_fs_suspend  handshake, 3 ms SE0 at HS, 200 us window ending in J -> HS suspend, SE0 pulses, resume to
                                       HS, drop to FS (restriction / VBUS), FS suspend + resume (a stale "was high speed"
                                       flag would re-enter HS here)
@@ -75,7 +75,7 @@ REQUIRED_BINS = [
     "se0_just_below_5us_no_reset", "se0_split_by_glitch", "se0_just_below_2p5us_suspended",
     "hs_via_chirp", "hs_via_resume", "train_state_just_below_2p5us", "train_state_split_by_glitch",
     "train_two_pairs_then_junk", "handshake_timeout_fallback", "handshake_deadline_inside_chirp_state",
-    "suspend_fs", "suspend_ls", "suspend_hs", "idle_split", "non_idle_prefix_before_idle_fs", "non_idle_3ms_no_suspend",
+    "suspend_fs", "suspend_ls", "suspend_hs", "idle_split", "non_idle_3ms_no_suspend",
     "restriction_at_hs", "restriction_in_hs_detect_window",
     "reset_while_restricted", "restriction_toggled_near_reset", "hs_window_j_at_decision", "hs_window_nonj_at_decision",
     "hs_se0_split", "fs_suspend_after_hs_suspend", "disconnect_used", "bus_busy_used", "vbus_loss_at_hs",
@@ -633,14 +633,15 @@ async def hs_games(d):
         await d.line(SE0, rng.randint(1, 2000))
 
 
-async def hs_exit(d, how):
-    """leave high speed by restriction pulse, VBUS loss or soft disconnect; ends at FS/LS with an idle line."""
+async def hs_exit(d, how, prefer_ls=False):
+    """leave high speed by restriction pulse, VBUS loss or soft disconnect; ends at FS/LS with an idle line.
+    prefer_ls: use low_speed_only and hold it for >= 3 cycles, so that the device ends up at low speed."""
     rng = d.rng
     if how == "restrict":
-        which = rng.choice(["fso", "fso", "lso"])
+        which = "lso" if prefer_ls else rng.choice(["fso", "fso", "lso"])
         d.mark("restr_at_hs")
         d.set(which, 1)
-        await d.wait(rng.choice([1, 1, 2, 3, rng.randint(4, 200)]))
+        await d.wait(rng.randint(3, 200) if prefer_ls else rng.choice([1, 1, 2, 3, rng.randint(4, 200)]))
         if rng.random() < 0.7:
             d.set(which, 0)
         await d.wait(rng.randint(1, 100))
@@ -740,7 +741,7 @@ async def after_suspend_attempt(d, got):
 
 async def session_playground(d):
     rng = d.rng
-    mode = rng.choice(["fs", "fs", "fs", "ls", "ls"])
+    mode = rng.choice(["fs", "ls"])
     d.res.desc["mode"] = mode
     await connect(d, mode)
     await se0_probes(d, rng.randint(4, 10), T_5US, allow_reset=True)
@@ -895,7 +896,10 @@ async def plan_resume_then_fs_suspend(d):
     if not d.hs_op():
         return
     await hs_games(d)
-    await hs_exit(d, rng.choice(["restrict", "restrict", "vbus"]))
+    if rng.random() < 0.45:
+        await hs_exit(d, "restrict", prefer_ls=True)
+    else:
+        await hs_exit(d, rng.choice(["restrict", "restrict", "vbus"]))
     if d.hs_op() or d.in_chirp_mode() or d.out["susp"]:
         return
     d.mark("fs_suspend_after_hs_suspend")
@@ -980,7 +984,7 @@ async def session_hs(d):
     await pfn(d)
 
 
-SESSIONS = [("playground", session_playground, 27), ("hs", session_hs, 73)]
+SESSIONS = [("playground", session_playground, 30), ("hs", session_hs, 70)]
 
 
 # ------------------------------------------------------------------------------------------- the judge
